@@ -9,6 +9,12 @@ NOTES = {
  "C08-4": "N-layer query: wrong upper bound of the vertical loop - caught by the exact membership contract ([bounds], [covers-y], [sound])",
  "C11-2": "the de-duplication map moves inside the per-ID loop, so the invariant [pairs-recorded] of the outer loop names a variable that is not in scope there any more (contract error => VIOLATION without input); the hand-written variant `selftest/mustfail/C11_duplicate_pairs_kept.diff` (duplicates appended instead of skipped) fails the invariants [current-new] / [current-distinct] semantically",
  "C17-2": "caught by the clause [no-error-when-valid] that was added after the first C17 version (which had only the error direction)",
+ "C04-3": "MISSED: the eligibility filter treats IDs whose vertical zoom equals the target as 'coarser' (returned unchanged); like C04-2 this is only visible through the density rule of the merge, which is not under contract (aliased unit-cell maps)",
+ "C11-3": "MISSED: `break` instead of `continue` when a pair was already reported drops the remaining vertical indices of that quadkey; the list-level contract has duplicate-freedom and group parameters but no coverage clause (every pair of every input is reported), so nothing fails",
+ "C09-3": "fast path with a wrong index in the zoom change: the exact set-level contract ([covers]/[sound] invariants) and the single-zoom-out case fail, under C09 and under C03",
+ "C17-3": "per-call cache keyed without the height range: detected through the loop invariant of the changed loop and a string-model bound, i.e. as *undecided* (no semantic clause about the reverse direction exists: convertBitToVerticalID is assumed total)",
+ "C20-3": "wrong operand in one entry of Matrix3.Mul: postcondition [row2] of the new spatial contracts fails, with the solver's model (two matrices) replayed on the changed code",
+ "C20-4": "opposite vectors on the X axis get a zero rotation axis (NaN quaternion): the quaternion helpers are outside the verified subset, so this is caught only by the BOUNDED stand-in /verif/models/bounded_quaternion_test.go (failing input printed by the test), not by a proof obligation",
  "C04-2": "MISSED: the eligibility fast path changes which inputs are fused; deciding it needs the density rule of the merge, which is not under contract (aliased unit-cell maps)",
  "C06-1": "detected because the callback closure no longer has the form `v = append(v, x)` the emit idiom supports (translation failure => VIOLATION without input): undecided rather than refuted",
  "C06-2": "missed by the first version of the C06 check; caught after the midpoint recursion got its gap-freedom precondition (no stop threshold may exceed the smallest voxel extent on its axis): R obligation `threshold-below-voxel-size` fails for hZoom >= 31",
